@@ -64,12 +64,9 @@ def build(run: Run):
         run.eng.contracts[f"{cls}.run"].requires += reqs
     only = os.environ.get("VERIF_ONLY")
     refusing, silent = [], []
-    for cls, key in keys:
-        if only and only not in key:
-            continue
-        r = run.verify(key)
+    for r in run.verify_batch([key for cls, key in keys if not (only and only not in key)]):
         if r.normal_paths == 0:
-            refusing.append(key)
+            refusing.append(r.qual)
     # refusal clause: an opcode class that resolves to a do-nothing run must have a nil VM effect (PROTO, FRAME); anything pickletools knows
     # and fickling does not implement is refused at parse (Opcode.__new__) — both are checked from the live tables / source
     import ast as _ast
